@@ -153,6 +153,8 @@ struct Obs {
     setv: Vec<u64>,
     nthv: Vec<u64>,
     wpos: Vec<u64>,
+    progr: Vec<u64>,
+    progm: Vec<u64>,
 }
 
 fn flat(r: Option<Vec<u64>>) -> Vec<u64> {
@@ -178,6 +180,168 @@ fn build_ro<'a>(base: DynRo<'a>, ops: &[Op]) -> DynRo<'a> {
     cur
 }
 
+/// one call on an iterator that is kept between the calls (iterator programs)
+#[derive(Clone, Copy, Debug)]
+enum IStep {
+    Nth(usize),  // it.nth(j)
+    Skip(usize), // it.by_ref().skip(j).next(): std maps it to nth(j)
+    Next,
+    Take(usize), // it.by_ref().take(j), collected
+    Pos,         // it.position()
+    Idx,         // it.index()
+    With,        // it = it.with_position(): at most once; afterwards only Next / Rest are asked
+    Rest,        // everything that is left
+}
+
+fn prog_of(v: &Value) -> Vec<IStep> {
+    v.as_array()
+        .map(|a| {
+            a.iter()
+                .filter_map(|s| {
+                    let j = s[1].as_u64().unwrap_or(0) as usize;
+                    Some(match s[0].as_str()? {
+                        "nth" => IStep::Nth(j),
+                        "skip" => IStep::Skip(j),
+                        "next" => IStep::Next,
+                        "take" => IStep::Take(j),
+                        "pos" => IStep::Pos,
+                        "idx" => IStep::Idx,
+                        "with" => IStep::With,
+                        "rest" => IStep::Rest,
+                        _ => return None,
+                    })
+                })
+                .collect()
+        })
+        .unwrap_or_default()
+}
+
+fn prog_coq(prog: &[IStep]) -> String {
+    clist(prog.iter().map(|s| match s {
+        IStep::Nth(j) | IStep::Skip(j) => format!("(INth {})", cnat(*j)),
+        IStep::Next => "INext".to_string(),
+        IStep::Take(j) => format!("(ITake {})", cnat(*j)),
+        IStep::Pos => "IPos".to_string(),
+        IStep::Idx => "IIdx".to_string(),
+        IStep::With => "IWith".to_string(),
+        IStep::Rest => "IRest".to_string(),
+    }))
+}
+
+/// the program on `iter()`: what every call returned
+fn prog_read<S: Surface<Item = u64>>(cur: &S, prog: &[IStep]) -> Vec<u64> {
+    let enc = |x: Option<&u64>| x.map(|v| v + 1).unwrap_or(0);
+    let mut out = vec![];
+    let mut plain = Some(cur.iter());
+    let mut posit = None;
+    for st in prog {
+        if let Some(it) = plain.as_mut() {
+            match *st {
+                IStep::Nth(j) => out.push(enc(it.nth(j))),
+                IStep::Skip(j) => out.push(enc(it.by_ref().skip(j).next())),
+                IStep::Next => out.push(enc(it.next())),
+                IStep::Take(j) => {
+                    let l: Vec<u64> = it.by_ref().take(j).copied().collect();
+                    out.push(l.len() as u64);
+                    out.extend(l);
+                }
+                IStep::Pos => {
+                    let p = (&*it).position();
+                    out.extend([p.row as u64, p.col as u64]);
+                }
+                IStep::Idx => out.push(it.index() as u64),
+                IStep::With => posit = Some(plain.take().unwrap().with_position()),
+                IStep::Rest => {
+                    let l: Vec<u64> = it.by_ref().copied().collect();
+                    out.push(l.len() as u64);
+                    out.extend(l);
+                }
+            }
+        } else if let Some(it) = posit.as_mut() {
+            match *st {
+                IStep::Next => match it.next() {
+                    Some((p, v)) => out.extend([1, p.row as u64, p.col as u64, *v]),
+                    None => out.push(0),
+                },
+                IStep::Rest => {
+                    let l: Vec<(Position, &u64)> = it.by_ref().collect();
+                    out.push(l.len() as u64);
+                    for (p, v) in l {
+                        out.extend([p.row as u64, p.col as u64, *v]);
+                    }
+                }
+                _ => {}
+            }
+        }
+    }
+    out
+}
+
+/// the same program on `iter_mut()`: an item is reported as the offset of the reference handed out, + 1 (which is
+/// what the cell holds in the numbered backing vector); every reference is written through, and no cell may be
+/// handed out twice (the second write would see the first one's mark)
+fn prog_mut<S: SurfaceMut<Item = u64>>(cur: &mut S, prog: &[IStep]) -> Vec<u64> {
+    let base = cur.data().as_ptr() as usize;
+    const MARK: u64 = 1 << 40;
+    let mut twice = false;
+    let mut hit = |r: &mut u64| -> u64 {
+        if *r >= MARK {
+            twice = true;
+        }
+        *r += MARK;
+        ((r as *mut u64 as usize) - base) as u64 / 8 + 1
+    };
+    let mut out = vec![];
+    {
+        let mut plain = Some(cur.iter_mut());
+        let mut posit = None;
+        for st in prog {
+            if let Some(it) = plain.as_mut() {
+                match *st {
+                    IStep::Nth(j) => out.push(it.nth(j).map(&mut hit).map(|v| v + 1).unwrap_or(0)),
+                    IStep::Skip(j) => out.push(it.by_ref().skip(j).next().map(&mut hit).map(|v| v + 1).unwrap_or(0)),
+                    IStep::Next => out.push(it.next().map(&mut hit).map(|v| v + 1).unwrap_or(0)),
+                    IStep::Take(j) => {
+                        let l: Vec<u64> = it.by_ref().take(j).map(&mut hit).collect();
+                        out.push(l.len() as u64);
+                        out.extend(l);
+                    }
+                    IStep::Pos => {
+                        let p = (&*it).position();
+                        out.extend([p.row as u64, p.col as u64]);
+                    }
+                    IStep::Idx => out.push(it.index() as u64),
+                    IStep::With => posit = Some(plain.take().unwrap().with_position()),
+                    IStep::Rest => {
+                        let l: Vec<u64> = it.by_ref().map(&mut hit).collect();
+                        out.push(l.len() as u64);
+                        out.extend(l);
+                    }
+                }
+            } else if let Some(it) = posit.as_mut() {
+                match *st {
+                    IStep::Next => match it.next() {
+                        Some((p, r)) => out.extend([1, p.row as u64, p.col as u64, hit(r)]),
+                        None => out.push(0),
+                    },
+                    IStep::Rest => {
+                        let l: Vec<(Position, &mut u64)> = it.by_ref().collect();
+                        out.push(l.len() as u64);
+                        for (p, r) in l {
+                            out.extend([p.row as u64, p.col as u64, hit(r)]);
+                        }
+                    }
+                    _ => {}
+                }
+            }
+        }
+    }
+    if twice {
+        out.push(PANICKED); // a cell was handed out as &mut a second time
+    }
+    out
+}
+
 /// everything that can be asked of a surface without mutating it
 struct ReadObs {
     shape: Vec<u64>,
@@ -187,9 +351,10 @@ struct ReadObs {
     nthv: Vec<u64>,
     wpos: Vec<u64>,
     mp: Vec<u64>,
+    progr: Vec<u64>,
 }
 
-fn read_obs<S: Surface<Item = u64>>(cur: &S, nk: usize) -> ReadObs {
+fn read_obs<S: Surface<Item = u64>>(cur: &S, nk: usize, prog: &[IStep]) -> ReadObs {
     let s = cur.shape();
     let shape = vec![s.start as u64, s.end as u64, s.width as u64, s.height as u64, s.row_stride as u64, s.col_stride as u64];
     let it: Vec<u64> = cur.iter().copied().collect();
@@ -217,7 +382,8 @@ fn read_obs<S: Surface<Item = u64>>(cur: &S, nk: usize) -> ReadObs {
     // to_owned_surf must agree with the identity map
     let o = cur.to_owned_surf();
     assert_eq!(o.data().to_vec(), it);
-    ReadObs { shape, empty: cur.is_empty(), it, gets, nthv, wpos, mp: m.data().to_vec() }
+    let progr = prog_read(cur, prog);
+    ReadObs { shape, empty: cur.is_empty(), it, gets, nthv, wpos, mp: m.data().to_vec(), progr }
 }
 
 /// which mutation to run through the view; the result is the whole backing vector afterwards
@@ -230,10 +396,12 @@ enum Mutn {
     Insert,
     Set,
     GetMut,
+    Prog,
 }
 
-fn mut_obs<S: SurfaceMut<Item = u64>>(cur: &mut S, m: Mutn, ir: usize, ic: usize, items: &[u64]) -> Vec<u64> {
+fn mut_obs<S: SurfaceMut<Item = u64>>(cur: &mut S, m: Mutn, ir: usize, ic: usize, items: &[u64], prog: &[IStep]) -> Vec<u64> {
     match m {
+        Mutn::Prog => prog_mut(cur, prog),
         Mutn::Ptrs => {
             let base = cur.data().as_ptr() as usize;
             let mut ptrs = vec![];
@@ -334,7 +502,7 @@ fn borrowed_steps(kind: Kind, ops: &[Op]) -> usize {
 /// marks an observation during which the implementation panicked where no panic is an expected value
 const PANICKED: u64 = u64::MAX;
 
-fn observe(h: usize, w: usize, ops: &[Op], borrowed: bool, kind: Kind, ir: usize, ic: usize, items: &[u64], nk: usize) -> Obs {
+fn observe(h: usize, w: usize, ops: &[Op], borrowed: bool, kind: Kind, ir: usize, ic: usize, items: &[u64], nk: usize, prog: &[IStep]) -> Obs {
     // the trailing view steps, if the kind wants to take them through borrowed views
     let nb = borrowed_steps(kind, ops);
     let prefix = &ops[..ops.len() - nb];
@@ -351,21 +519,21 @@ fn observe(h: usize, w: usize, ops: &[Op], borrowed: bool, kind: Kind, ir: usize
         match kind {
             Kind::Arc => {
                 let cur = build_ro(Box::new(std::sync::Arc::new(owned)), ops);
-                read_obs(&cur, nk)
+                read_obs(&cur, nk, prog)
             }
             Kind::Ref => {
                 let cur = build_ro(Box::new(&owned), ops);
-                read_obs(&cur, nk)
+                read_obs(&cur, nk, prog)
             }
             _ => {
                 let base: Dyn = if borrowed { Box::new(&mut owned) } else { Box::new(owned.clone()) };
                 let mut cur = build(base, prefix);
                 match kind {
-                    Kind::View if nb > 0 => with_views(&cur, &steps, &|v| read_obs(v, nk)),
-                    Kind::ViewMut if nb > 0 => with_views_mut(&mut cur, &steps, &|v| read_obs(v, nk)),
-                    Kind::AsRef | Kind::View => read_obs(&Surface::as_ref(&cur), nk),
-                    Kind::AsMut | Kind::ViewMut => read_obs(&SurfaceMut::as_mut(&mut cur), nk),
-                    _ => read_obs(&cur, nk),
+                    Kind::View if nb > 0 => with_views(&cur, &steps, &|v| read_obs(v, nk, prog)),
+                    Kind::ViewMut if nb > 0 => with_views_mut(&mut cur, &steps, &|v| read_obs(v, nk, prog)),
+                    Kind::AsRef | Kind::View => read_obs(&Surface::as_ref(&cur), nk, prog),
+                    Kind::AsMut | Kind::ViewMut => read_obs(&SurfaceMut::as_mut(&mut cur), nk, prog),
+                    _ => read_obs(&cur, nk, prog),
                 }
             }
         }
@@ -378,15 +546,15 @@ fn observe(h: usize, w: usize, ops: &[Op], borrowed: bool, kind: Kind, ir: usize
             match kind {
                 Kind::ViewMut if nb > 0 => {
                     let mut cur = build(base, prefix);
-                    with_views_mut(&mut cur, &steps, &|v| mut_obs(v, m, ir, ic, items))
+                    with_views_mut(&mut cur, &steps, &|v| mut_obs(v, m, ir, ic, items, prog))
                 }
                 Kind::AsMut | Kind::ViewMut => {
                     let mut cur = build(base, ops);
-                    mut_obs(&mut SurfaceMut::as_mut(&mut cur), m, ir, ic, items)
+                    mut_obs(&mut SurfaceMut::as_mut(&mut cur), m, ir, ic, items, prog)
                 }
                 _ => {
                     let mut cur = build(base, ops);
-                    mut_obs(&mut cur, m, ir, ic, items)
+                    mut_obs(&mut cur, m, ir, ic, items, prog)
                 }
             }
         }))
@@ -406,6 +574,8 @@ fn observe(h: usize, w: usize, ops: &[Op], borrowed: bool, kind: Kind, ir: usize
         setv: flat(run_mut(Mutn::Set)),
         nthv: ro.nthv,
         wpos: ro.wpos,
+        progr: ro.progr,
+        progm: run_mut(Mutn::Prog).unwrap_or_else(|| vec![PANICKED]),
     }
 }
 
@@ -426,9 +596,11 @@ pub fn run(input: &Value) -> Case {
                 .collect()
         })
         .unwrap_or_default();
+    let prog = prog_of(&input["prog"]);
     let o2 = ops.clone();
     let it2 = items.clone();
-    let obs = catch(std::panic::AssertUnwindSafe(move || observe(h, w, &o2, borrowed, kind, ir, ic, &it2, nk)));
+    let p2 = prog.clone();
+    let obs = catch(std::panic::AssertUnwindSafe(move || observe(h, w, &o2, borrowed, kind, ir, ic, &it2, nk, &p2)));
     let ops_coq = clist(ops.iter().map(|o| match o {
         Op::T => "OpT".to_string(),
         Op::View(r, c) => format!("(OpView {} {})", r.coq(), c.coq()),
@@ -436,17 +608,19 @@ pub fn run(input: &Value) -> Case {
     let mut j = input.clone();
     let (coq, nontrivial, tags) = match obs {
         Some(o) => {
-            j["impl"] = json!({"shape": o.shape, "iter": o.it, "muts": o.muts, "fill": o.fil, "insert": o.ins, "clear": o.clr, "set": o.setv, "nth": o.nthv});
+            j["impl"] = json!({"shape": o.shape, "iter": o.it, "muts": o.muts, "fill": o.fil, "insert": o.ins, "clear": o.clr, "set": o.setv, "nth": o.nthv,
+                               "prog_iter": o.progr, "prog_iter_mut": o.progm});
             let nviews = ops.iter().filter(|o| matches!(o, Op::View(..))).count();
             let nt = ops.iter().filter(|o| matches!(o, Op::T)).count();
             let area = o.shape[2] * o.shape[3];
             (
                 format!(
-                    "S07 {} {} {} {} {} {} {} {} {} {} {} {} {} {} {} {} {} {} {} {} {}",
-                    cnat(h), cnat(w), ops_coq, ir, ic, cnums(&items), cnat(nk),
+                    "S07 {} {} {} {} {} {} {} {} {} {} {} {} {} {} {} {} {} {} {} {} {} {} {} {}",
+                    cnat(h), cnat(w), ops_coq, ir, ic, cnums(&items), cnat(nk), prog_coq(&prog),
                     cnums(&o.shape), cbool(o.empty), cnums(&o.it), cnums(&o.gets), cnums(&o.muts),
                     cnums(&o.fil), cnums(&o.filw), cnums(&o.ins), cnums(&o.mp),
-                    cnums(&o.clr), cnums(&o.getm), cnums(&o.setv), cnums(&o.nthv), cnums(&o.wpos)
+                    cnums(&o.clr), cnums(&o.getm), cnums(&o.setv), cnums(&o.nthv), cnums(&o.wpos),
+                    cnums(&o.progr), cnums(&o.progm)
                 ),
                 nviews >= 1 && area >= 2 && (area as usize) < h * w,
                 vec![
@@ -459,6 +633,14 @@ pub fn run(input: &Value) -> Case {
                     format!("insert={}", if o.ins == vec![0] { "panic" } else if ir as u128 * (o.shape[2] as u128) + ic as u128 >= area as u128 { "beyond-window" } else { "inside" }),
                     format!("set={}", if o.setv == vec![0] { "outside(panic)" } else { "inside" }),
                     format!("huge-position={}", ir > (1 << 32) || ic > (1 << 32)),
+                    format!("iter-program={}", {
+                        let k = prog.iter().position(|s| matches!(s, IStep::With));
+                        match k {
+                            None => "no-with_position",
+                            Some(k) if prog[..k].iter().any(|s| matches!(s, IStep::Nth(_) | IStep::Skip(_) | IStep::Next | IStep::Take(_) | IStep::Rest)) => "with_position-after-advance",
+                            Some(_) => "with_position-fresh",
+                        }
+                    }),
                 ],
             )
         }
@@ -466,8 +648,8 @@ pub fn run(input: &Value) -> Case {
             j["impl"] = json!("panic");
             (
                 format!(
-                    "S07 {} {} {} {} {} {} {} [] false [] [] [] [0] [0] [0] [0] [0] [] [0] [] []",
-                    cnat(h), cnat(w), ops_coq, ir, ic, cnums(&items), cnat(nk)
+                    "S07 {} {} {} {} {} {} {} {} [] false [] [] [] [0] [0] [0] [0] [0] [] [0] [] [] [] []",
+                    cnat(h), cnat(w), ops_coq, ir, ic, cnums(&items), cnat(nk), prog_coq(&prog)
                 ),
                 true,
                 vec!["panic".to_string()],
@@ -479,12 +661,15 @@ pub fn run(input: &Value) -> Case {
 
 pub fn generate(rng: &mut Rng, n: usize, _tier: &str) -> Vec<Value> {
     let mut v = vec![];
+    // constants written in src/surface.rs and their neighbours (harvested at run time), small enough for sizes and steps
+    let bounds: Vec<u64> = source_boundaries(&["src/surface.rs"], 40);
     while v.len() < n {
         // mostly small roots, now and then a larger one
         let dim = |rng: &mut Rng| -> usize {
             match rng.below(24) {
                 0 | 1 => 0,
                 2 => 9 + rng.below(24) as usize,
+                3 if !bounds.is_empty() => *rng.pick(&bounds) as usize,
                 _ => 1 + rng.below(8) as usize,
             }
         };
@@ -528,7 +713,47 @@ pub fn generate(rng: &mut Rng, n: usize, _tier: &str) -> Vec<Value> {
         let items: Vec<u64> = (0..nitems).map(|i| 9000 + i as u64).collect();
         let nk = rng.below((ch * cw) as u64 + 3);
         let kind = *rng.pick(&["owned", "owned", "view", "view_mut", "view_mut", "as_ref", "as_mut", "arc", "ref"]);
-        v.push(json!({"H": h, "W": w, "ops": ops, "borrowed": rng.chance(1, 2), "kind": kind, "ir": ir, "ic": ic, "items": items, "nk": nk}));
+        // iterator program: one iterator advanced by a few calls, then (two times out of three) turned into a
+        // position iterator and continued.  Step sizes aim at the row length, the number of cells and the constants
+        // written in src/surface.rs
+        let total = ch * cw;
+        let step = |rng: &mut Rng| -> usize {
+            match rng.below(10) {
+                0..=3 => rng.below(3) as usize,
+                4 | 5 => (cw + rng.below(3) as usize).saturating_sub(1),
+                6 => (total + rng.below(3) as usize).saturating_sub(1),
+                7 if !bounds.is_empty() => *rng.pick(&bounds) as usize,
+                _ => rng.below(total as u64 + 2) as usize,
+            }
+        };
+        let mut prog = vec![];
+        for _ in 0..rng.below(5) {
+            prog.push(match rng.below(9) {
+                0 | 1 => json!(["next"]),
+                2 | 3 => json!(["nth", step(rng)]),
+                4 => json!(["skip", step(rng)]),
+                5 => json!(["take", step(rng)]),
+                6 => json!(["pos"]),
+                7 => json!(["idx"]),
+                _ => json!(["next"]),
+            });
+        }
+        if rng.chance(2, 3) {
+            prog.push(json!(["with"]));
+            for _ in 0..rng.below(4) {
+                prog.push(json!(["next"]));
+            }
+        } else if rng.chance(1, 2) {
+            prog.push(json!(["pos"]));
+            prog.push(json!(["idx"]));
+        }
+        if rng.chance(2, 3) {
+            prog.push(json!(["rest"]));
+            if rng.chance(1, 3) {
+                prog.push(json!(["next"]));
+            }
+        }
+        v.push(json!({"H": h, "W": w, "ops": ops, "borrowed": rng.chance(1, 2), "kind": kind, "ir": ir, "ic": ic, "items": items, "nk": nk, "prog": prog}));
     }
     v
 }
